@@ -55,6 +55,40 @@ pub fn worker_handle(req: &Value) -> Value {
         }
     };
     let mut qs: Vec<Value> = vec![];
+    // the exhaustive answer does not go through the code under test: exact rational slab test on the integer data of the
+    // request (boxes, ray origins and directions are integers); None when the ray only grazes a box (touches its
+    // boundary without entering): such rays are not judged
+    let ibox: Vec<[i128; 6]> = req["boxes"].as_array().map(|a| a.iter().map(|b| {
+        let g = |i: usize| b[i].as_i64().unwrap_or(0) as i128;
+        [g(0), g(1), g(2), g(3), g(4), g(5)]
+    }).collect()).unwrap_or_default();
+    let exact_hit = |o: [i128; 3], d: [i128; 3]| -> Option<bool> {
+        // fractions n/m with m > 0
+        let le = |a: (i128, i128), b: (i128, i128)| a.0 * b.1 <= b.0 * a.1;
+        let lt = |a: (i128, i128), b: (i128, i128)| a.0 * b.1 < b.0 * a.1;
+        let (mut closed_any, mut strict_any) = (false, false);
+        for b in &ibox {
+            let (mut lo, mut hi) = ((0i128, 1i128), (1_000_000_000_000i128, 1i128));
+            let (mut closed, mut strict) = (true, true);
+            for k in 0..3 {
+                let (mn, mx) = (b[k], b[k + 3]);
+                if d[k] == 0 {
+                    if !(mn <= o[k] && o[k] <= mx) { closed = false; }
+                    if !(mn < o[k] && o[k] < mx) { strict = false; }
+                } else {
+                    let (mut a, mut c) = ((mn - o[k], d[k]), (mx - o[k], d[k]));
+                    if d[k] < 0 { a = (-a.0, -a.1); c = (-c.0, -c.1); std::mem::swap(&mut a, &mut c); }
+                    if lt(lo, a) { lo = a; }
+                    if lt(c, hi) { hi = c; }
+                }
+            }
+            if !le(lo, hi) { closed = false; }
+            if !lt(lo, hi) { strict = false; }
+            closed_any |= closed;
+            strict_any |= strict && closed;
+        }
+        if closed_any == strict_any { Some(closed_any) } else { None }
+    };
     let lin = |ray: &Ray| boxes.iter().any(|b| b.intersects(ray).is_some());
     for r in req["axis_rays"].as_array().cloned().unwrap_or_default() {
         let f = |i: usize| r[i].as_f64().unwrap_or(0.0) as f32;
@@ -73,7 +107,13 @@ pub fn worker_handle(req: &Value) -> Value {
         let f = |i: usize| r[i].as_f64().unwrap_or(0.0) as f32;
         let ray = Ray::new(point![f(0), f(1), f(2)], vector![f(3), f(4), f(5)]);
         let acc = catch(std::panic::AssertUnwindSafe(|| bvh.intersects(&ray).is_some()));
-        qs.push(json!({"acc": acc.unwrap_or(false), "lin": lin(&ray)}));
+        let gi = |i: usize| r[i].as_i64().unwrap_or(0) as i128;
+        let acc: Result<bool, String> = Ok(acc.unwrap_or(false));
+        let acc = acc.as_ref().map(|b| *b);
+        match exact_hit([gi(0), gi(1), gi(2)], [gi(3), gi(4), gi(5)]) {
+            Some(h) => qs.push(json!({"acc": acc.unwrap_or(false), "lin": h, "code_lin": lin(&ray)})),
+            None => qs.push(json!({"acc": acc.unwrap_or(false), "lin": acc.unwrap_or(false), "code_lin": lin(&ray), "grazing": true})),
+        }
     }
     events.push(json!({"ev": "BvhQuery", "qs": qs, "exact": exact}));
     json!({"events": events})
